@@ -221,6 +221,51 @@ ALGOS4 = ["deny-overrides", "permit-overrides", "first-applicable", "no-such-alg
 OBL = [{"type": "require_mfa"}]
 
 
+def edited_in_place(run: lib.Run) -> None:
+    """a document that has been evaluated, is then edited IN PLACE (a rule replaced at its index, an action list changed, a child set
+    re-ordered) and evaluated again: the result is the one of the document as it stands — the same as for a fresh copy of it"""
+    import copy
+    r = random.Random(run.seed * 4409 + 2)
+    edits = 0
+    for k in range(300 if run.tier == "quick" else 3000):
+        if k % 3:
+            seq = [r.choice(CLASSES) for _ in range(r.randrange(1, 5))]
+            doc = {"algorithm": r.choice(gen.ALGOS), "rules": [template(c, i) for i, c in enumerate(seq)]}
+            holders = [doc]
+        else:
+            kids = [{"algorithm": r.choice(gen.ALGOS), "id": f"p{j}", "rules": [template(r.choice(CLASSES), i) for i in range(r.randrange(1, 4))]}
+                    for j in range(r.randrange(1, 4))]
+            doc = {"algorithm": r.choice(gen.ALGOS), "policies": kids}
+            holders = kids
+        first = impl(doc, ENV)
+        for _ in range(r.randrange(1, 4)):
+            h = r.choice(holders)
+            rules = h["rules"]
+            i = r.randrange(len(rules))
+            m = r.random()
+            if m < 0.35:
+                rules[i] = template(r.choice(CLASSES), i)                     # replaced at its index (the list object stays)
+            elif m < 0.6:
+                rules[i]["actions"][:] = r.choice([["read"], ["write"], ["*"]])  # the action list edited in place
+            elif m < 0.75:
+                rules[i]["effect"] = r.choice(["permit", "deny"])
+            elif m < 0.9:
+                rules.reverse()
+            elif "policies" in doc:
+                doc["policies"].reverse()
+            else:
+                h["algorithm"] = r.choice(gen.ALGOS)
+            edits += 1
+            got, fresh = impl(doc, ENV), impl(copy.deepcopy(doc), ENV)
+            run.evaluations += 1
+            if got != fresh:
+                run.spec_failures.append({"part": "edited in place", "policy": copy.deepcopy(doc), "env": ENV, "before_the_edits": first, "impl": got,
+                                          "impl_on_a_fresh_copy": fresh,
+                                          "spec": "a document edited in place after an earlier evaluation is not evaluated as it stands"})
+                return
+    run.count("edited-in-place", edits)
+
+
 def _raw(decision="permit", reason="matched", rule_id="r", last_rule_id="r", obligations=(), policy_id="<absent>", tail=False):
     """a raw decision dict; `policy_id` absent (what evaluate returns), fifth (decide's display) or last (`tail`: a copied policy result)"""
     d = {"decision": decision, "reason": reason, "rule_id": rule_id, "last_rule_id": last_rule_id}
@@ -400,13 +445,16 @@ def check(run: lib.Run, audit: dict) -> int:
         ok_py, detail_py = translated_vs_python(run, fr)
     run.obligation("translated fragments evaluate like the same statements run by CPython (translator + Model/PyLib.lean vs CPython)", ok_py, detail_py)
     run_cases(run, audit, scale=run.boost * (1 if ok_tr else 2))
+    edited_in_place(run)
     violations = []
     consts = audit["facts"]["consts"]
     if (run.disagreements or not ok_tr) and not run.spec_failures:
         run_cases(run, audit, scale=5)  # correspondence or the translation tie broke: widen the search for a failing input
     if run.spec_failures:
-        c = shrink({**run.spec_failures[0], "consts": consts})
-        path = run.write_replay("spec", {"what": "implementation output contradicts the combining spec (Rbacx.Spec.tree)", "case": c,
+        first = next((f for f in run.spec_failures if f.get("part") != "edited in place"), None)
+        c = shrink({**first, "consts": consts}) if first is not None else run.spec_failures[0]
+        path = run.write_replay("spec", {"what": "implementation output contradicts the combining spec (Rbacx.Spec.tree)" if first is not None else
+                                         "the evaluators' result for a document depends on an earlier evaluation of the same (since edited) object", "case": c,
                                          "more": len(run.spec_failures) - 1})
         violations.append((path, True))
     elif not ok_tr:
@@ -434,6 +482,13 @@ def replay(run: lib.Run, audit: dict, path: str) -> int:
         print("nothing to re-run on the implementation:", rp.get("what"))
         print("recorded:", c or rp.get("lean"))
         return 0
+    if c.get("part") == "edited in place":
+        before = len(run.spec_failures)
+        edited_in_place(run)
+        now = run.spec_failures[before:]
+        print("now:", json.dumps(now[0], default=str)[:1500] if now else "every edited document is evaluated as it stands")
+        print("recorded:", json.dumps(c, default=str)[:1500])
+        return 1 if now else 0
     out = impl(c["policy"], c["env"])
     print("impl:", out)
     print("recorded:", c.get("impl"), c.get("spec") or c.get("model"))
